@@ -62,3 +62,56 @@ def star_before_star_group(nodes):
         if n[0] == 'neg' and any(star_before_star_group(alt) for alt in n[1]):
             return True
     return False
+
+
+# ---------------------------------------------------------------------------------------------------------
+# regions used by the spec-vs-impl checks (C01, C02, C03): (key, pattern predicate, name region formula builder)
+SPEC_REGIONS = []
+
+
+def _guard_repeated(nodes, under_rep=False):
+    """The first node of the (sub)pattern is a wildcard that receives the start-of-name guard while standing inside a
+    repeated group: the guard is then re-applied at every iteration (e.g. +(?) -> (?:(?![.]).)+ )."""
+    if not nodes:
+        return False
+    n = nodes[0]
+    if n[0] in ('q', 'cls', 'star'):
+        return under_rep
+    if n[0] == 'neg':
+        return under_rep
+    if n[0] == 'grp':
+        rep = under_rep or n[1] in '*+'
+        return any(_guard_repeated(a, rep) for a in n[2])
+    return False
+
+
+def _segments(mode, ast):
+    return [ast] if mode == 'fn' else [it[1] for it in ast if it[0] == 'seg']
+
+
+def pat_guard_repeated(mode, ast, fi):
+    if mode == 'fn' and fi['dot']:
+        return False
+    return any(_guard_repeated(seg) for seg in _segments(mode, ast))
+
+
+def name_dot_inside_segment(sym, mode, ast, fi):
+    """Some '.' that is not at a segment start."""
+    import z3
+    alts = []
+    for i in range(1, sym.N):
+        f = z3.And(sym.len_gt(i), sym.c[i] == sym.cv(46))
+        if fi['path']:
+            f = z3.And(f, sym.c[i - 1] != sym.cv(47))
+        alts.append(f)
+    return z3.Or(*alts) if alts else z3.BoolVal(False)
+
+
+def pat_star_star_group(mode, ast, fi):
+    return any(star_before_star_group(seg) for seg in _segments(mode, ast))
+
+
+SPEC_REGIONS += [
+    ('dot-guard-in-repeated-group', pat_guard_repeated, name_dot_inside_segment),
+    ('star-before-star-group', pat_star_star_group, lambda sym, mode, ast, fi: None),
+]
